@@ -66,28 +66,38 @@ pub fn make_config(bits: u8) -> ParserConfig {
         z = crate::rng::mix(z);
         order.swap(i, (z % (i as u64 + 1)) as usize);
     }
-    for k in order {
-        match k {
-            0 => {
-                p.allow_spaces_after_header_name_in_responses(c.a);
+    // ... nor on its history: in a first pass some options (again a function of the bits) are set
+    // to the OPPOSITE of their final value, as a caller that toggles a cloned config would do
+    z = crate::rng::mix(z);
+    let flip_first = (z & 0x7f) as u8;
+    for pass in 0..2 {
+        for k in order {
+            if pass == 0 && flip_first & (1 << k) == 0 {
+                continue;
             }
-            1 => {
-                p.allow_obsolete_multiline_headers_in_responses(c.f);
-            }
-            2 => {
-                p.allow_multiple_spaces_in_request_line_delimiters(c.mreq);
-            }
-            3 => {
-                p.allow_multiple_spaces_in_response_status_delimiters(c.mresp);
-            }
-            4 => {
-                p.allow_space_before_first_header_name(c.s);
-            }
-            5 => {
-                p.ignore_invalid_headers_in_responses(c.iresp);
-            }
-            _ => {
-                p.ignore_invalid_headers_in_requests(c.ireq);
+            let inv = pass == 0;
+            match k {
+                0 => {
+                    p.allow_spaces_after_header_name_in_responses(c.a ^ inv);
+                }
+                1 => {
+                    p.allow_obsolete_multiline_headers_in_responses(c.f ^ inv);
+                }
+                2 => {
+                    p.allow_multiple_spaces_in_request_line_delimiters(c.mreq ^ inv);
+                }
+                3 => {
+                    p.allow_multiple_spaces_in_response_status_delimiters(c.mresp ^ inv);
+                }
+                4 => {
+                    p.allow_space_before_first_header_name(c.s ^ inv);
+                }
+                5 => {
+                    p.ignore_invalid_headers_in_responses(c.iresp ^ inv);
+                }
+                _ => {
+                    p.ignore_invalid_headers_in_requests(c.ireq ^ inv);
+                }
             }
         }
     }
